@@ -9,7 +9,7 @@ direct ops (the same line is answered by the harness with the real functions; co
   CLIP x lo hi                          -> r <float>                             (mju_clip)
   QI q0 q1 q2 q3 v0 v1 v2 h             -> 4: <4 floats>                          (mju_quatIntegrate)
   IP n t1..tn h qpos.. qvel..           -> nq: <floats>                          (mj_integratePos)
-  NA dyn lim off h act adot vel lo hi p0 p2 p5 p7 p8 g5 b3 b4 b5   -> r <float>  (mj_nextActivation)
+  NA dyn lim off actnum h act adot vel lo hi p0 p2 p5 p7 p8 g5 b3 b4 b5   -> r <float>  (mj_nextActivation)
 
 trace ops (inputs taken from the engine's own trace by checks/c05.py; `key n v1..vn` groups in any order):
   ADV <groups>     one `mj_advance` : groups h jtype actuation_disabled + per-actuator arrays + time qpos qvel act
@@ -144,17 +144,18 @@ def opIP (toks : List String) : Option String := do
 
 def opNA (toks : List String) : Option String := do
   match toks with
-  | dyn :: lim :: off :: rest =>
+  | dyn :: lim :: off :: actnum :: rest =>
     let dyn ← dyn.toInt?
     let lim ← (lim.toInt?).bind bool?
     let off ← off.toNat?
-    if 7 < off then none else
+    let actnum ← actnum.toNat?
+    if 7 < off ∨ actnum ≤ off ∨ 8 < actnum then none else
     match ← fls? rest with
     | [h, act, adot, vel, lo, hi, p0, p2, p5, p7, p8, g5, b3, b4, b5] =>
       let p : ActSlot Float :=
         { dyntype := dyn, actlimited := lim, offset := (off : Int), lo := lo, hi := hi, dynprm0 := p0, dynprm2 := p2,
           dynprm5 := p5, dynprm7 := p7, dynprm8 := p8, gainprm5 := g5, biasprm3 := b3, biasprm4 := b4, biasprm5 := b5,
-          velocity := vel }
+          velocity := vel, actnum := (actnum : Int) }
       pure ("r " ++ floatBits (nextActivation p h act adot))
     | _ => none
   | _ => none
